@@ -14,6 +14,7 @@ mod ondisk;
 mod open;
 mod ops;
 mod plant;
+mod power;
 mod real;
 mod report;
 mod sched;
@@ -116,6 +117,7 @@ fn main() {
                 "plant" => plant::run(&a.tier, a.slice, a.seed),
                 "sched" => conc::run(&a.tier, a.slice, a.seed),
                 "open" => open::run(&a.tier, a.slice, a.seed, &prop),
+                "power" => power::run(&a.tier, a.slice, a.seed),
                 _ => {
                     eprintln!("unknown engine {engine}");
                     std::process::exit(2);
@@ -140,6 +142,7 @@ pub fn replay(case: &Value) -> Vec<report::Violation> {
         "plant" => plant::replay(case),
         "sched" => conc::replay(case),
         "open" => open::replay(case),
+        "power" => power::replay(case),
         e => {
             eprintln!("cannot replay engine {e:?}");
             std::process::exit(2);
